@@ -40,7 +40,7 @@ def fixed_level(kmin=15, kmax=60):
     return st.integers(kmin, kmax).map(lambda k: [[1.0, {'from_first_open': k}]])
 
 
-def action(futures, flips=False, oversize=False, spaced=1, adds=True):
+def action(futures, flips=False, oversize=False, spaced=1, adds=True, clears=False):
     lad = ladder(oversize=oversize, spaced=spaced)
     kinds = [st.fixed_dictionaries(dict(kind=st.just('sl'), sl=lad, shape=st.sampled_from(['list', 'tuple', 'ndarray']), read_avg=st.booleans())),
              st.fixed_dictionaries(dict(kind=st.just('tp'), tp=lad, shape=st.sampled_from(['list', 'tuple', 'ndarray']), read_avg=st.booleans())),
@@ -52,13 +52,16 @@ def action(futures, flips=False, oversize=False, spaced=1, adds=True):
         kinds.append(st.fixed_dictionaries(dict(kind=st.just('add'), frac=st.sampled_from([1.0, 0.5]), off=st.integers(-4, 4))))
     if flips and futures:
         kinds.append(st.fixed_dictionaries(dict(kind=st.just('flip'), k=st.sampled_from([2, 1.5, 3]))))
+    if clears:
+        # withdraw a declaration: `self.take_profit = []` (a declaration without rows)
+        kinds.append(st.fixed_dictionaries(dict(kind=st.just('clear'), which=st.sampled_from(['sl', 'tp']))))
     return st.one_of(*kinds)
 
 
-def row(futures, flips=False, oversize=False, boundary=False, spaced=1, adds=True, max_points=3, busy=False, resting=False, hold=False, fixed=False):
+def row(futures, flips=False, oversize=False, boundary=False, spaced=1, adds=True, max_points=3, busy=False, resting=False, hold=False, fixed=False, clears=False):
     act = st.sampled_from((['none'] * (2 if busy else 5)) + ['long'] * 3 + (['short'] * 3 if futures else []))
     lad = ladder(oversize=oversize, spaced=spaced)
-    a = action(futures, flips, oversize, spaced, adds)
+    a = action(futures, flips, oversize, spaced, adds, clears)
     maybe = lambda s, p=3: st.one_of(*([st.none()] * p + [s]))
     return st.fixed_dictionaries(dict(
         act=act, entry=(st.one_of(entry_points(max_points, boundary=boundary), entry_points(2, offs=(25, 90))) if resting
